@@ -9,6 +9,8 @@ CLAIMED = {
 }
 CLAIMED['C09'] = dict(text='Solver verdict with the five base units as arbitrary positive reals: every unit-table entry is a symbolic monomial; parse() agrees with an independent precedence-climbing evaluator on every generated expression (depth<=2 exhaustive, stride through depth 3; thorough depth 3), set/get round trips, conversion factors equal under two independent working-unit systems, chosen working units equal 1 after reset_units(**choice) for all consistent choices (2-3 names per category), LAMMPS mechanical table entries satisfy the dimensional scaling law.',
              note='Base-unit contract of numericalunits.reset_units stubbed as arbitrary positive reals; real arithmetic with relative tolerance 1e-9 for the clause "to rounding"; exponent table of the oracle measured from concrete numericalunits runs.', ref='§5 C09')
+CLAIMED['C01'] = dict(text='Solver verdict over all LAMMPS-form cells (lengths in [1,100], tilts 0 or >=1e-3, any origin), all (a,b,c,cosines) with a realisability margin, and all right-handed general 3x3 cells with det>=1: every pair of parameter sets rebuilds the same vectors/origin, reported lengths/angles/volume are those of the vectors, cartesian<->relative are mutual inverses for shapes (3,),(2,3),(2,2,3) list and array input, reciprocal vectors are dual also after re-setting the cell (cache invalidation), inside() <=> relative coordinates in [0,1]/(0,1), Plane.below/above, the seven family constructors.',
+             note='Real arithmetic; dead-zone assumption for the near-zero threshold; lemma L1 cos(arccos x)=x; a few rational-function obligations may stay unknown within the quick time-out and are reported as inconclusive.', ref='§5 C01')
 NA = {}
 props = [json.loads(l) for l in open(os.path.join(V, 'properties.jsonl'))]
 checks = []; na = []
